@@ -24,6 +24,19 @@ fn main() {
         eprintln!("usage: qv <driver> <args...>");
         std::process::exit(2);
     }
+    // Safety net: the drivers catch panics around the calls they make into the code under test and record them as
+    // outcomes. A panic that escapes nevertheless ends the driver here with exit code 3 and the place it was raised:
+    // the orchestrator reports it as a violation when that place is not the harness's own source (a panic of the
+    // code under test is data, never a tool error) and as a tool error when it is.
+    common::silence_panics();
+    let a2 = args.clone();
+    if std::panic::catch_unwind(move || dispatch(&a2)).is_err() {
+        eprintln!("DRIVER-PANIC at {}", common::last_panic_location());
+        std::process::exit(3);
+    }
+}
+
+fn dispatch(args: &[String]) {
     match args[0].as_str() {
         "server" => server_drv::main(&args[1..]),
         "codes" => codes_drv::main(&args[1..]),
@@ -39,6 +52,15 @@ fn main() {
         "io" => io_drv::main(&args[1..]),
         "snapshot" => snapshot_drv::main(&args[1..]),
         "zonefile" => zonefile_drv::main(&args[1..]),
+        // self-test of the safety net: an unchecked lookup outside the zone violates the documented precondition of
+        // the zone API; if the code under test panics there, the driver ends with DRIVER-PANIC at a /repo location
+        "selftest-panic" => {
+            use quandary::db::zone::{GluePolicy, LookupOptions};
+            use quandary::db::{HashMapTreeZone, Zone};
+            let z = HashMapTreeZone::new(common::nm("a.b."), quandary::class::Class::IN, GluePolicy::Narrow);
+            let _ = z.lookup(&common::nm("zz."), quandary::rr::Type::A, LookupOptions { unchecked: true, search_below_cuts: false });
+            eprintln!("no panic");
+        }
         d => {
             eprintln!("unknown driver {}", d);
             std::process::exit(2);
